@@ -17,6 +17,13 @@ Streams
                  a captured answer outside SolverPost (beyond 1e-6) in a returned run fails too (no longer excused).
                  Fourth family "pulled": wide dies (8x2, 12x3), a soft module tied by a heavy net / alpha 0.9-0.99 to a fixed
                  module in a far upper corner (centre variables pushed against their bounds).
+                 Sub-seeded families: "flipper" (5 fixed instances on which a flippable two-rectangle hard module comes back
+                 MIRRORED from the real solver: branch slightly off the trunk's axis), "rich" (die with a blockage AND a
+                 specialised region, fixed modules of 2-3 rectangles, an off-axis flippable hard module, nets with 2 and 3-4
+                 pins incl. nets through / between fixed modules, any alpha in (0,1), max_iter None half of the time), "blocked"
+                 (a module entirely on a blockage: glbfloor raises KeyError before optimising — did not return, counted),
+                 "in-process" (two runs in the harness process so that the refine / break lines of the loop are seen by the
+                 anchored-line coverage).
   loop-live      the observed sequence of must_be_refined / refine / optimize_allocation calls of each run replayed
                  through the model's loop `loopG` (driver op `loop`): loop structure, incl. "optimise before stopping".
   extract-live   every `extract_solution` call of those runs: captured answer -> Lean `extractSolution` (Float) vs what
@@ -32,15 +39,19 @@ Streams
                  role, and compared node-for-node (order included; `==` rows unordered; numbers within 1e-9) with the Lean
                  generator `FV/Model/GlbOpt.lean` (driver op `post`): variable declarations with bounds, float constants of
                  `model.x/y/a`, capacity / area / centroid / centre-offset / hard-sum / rigid-offset equations with their
-                 bodies; dispersion equations, hyperedge equations and objective terms as body-less stubs (presence and
-                 position only).  A missing or extra equation is a disagreement.  Monitor: every posted equation and bound
-                 evaluated on the solver's point (coverage.posted_monitor).
+                 bodies; the dispersion equations of soft modules and of every rectangle of a movable hard module, the anonymous
+                 centre variables and centre equations of nets with other than two pins, and every `g.Minimize` term (two-pin
+                 nets, pins of larger nets, total dispersion, with the alpha weighting) — all with their full expression trees.
+                 A missing or extra equation / objective term is a disagreement; a row that is not the same tree must at least
+                 denote the same function of the variables (`glb_post.rows_same_meaning`, counted).  Monitor: every posted
+                 equation and bound evaluated on the solver's point (coverage.posted_monitor).
   consts-synth   `optimize_allocation` up to the solve call (stubbed) on allocations whose ratios sit exactly on the
                  decision boundaries (`== threshold`, `== 1 - threshold`): the same table comparison, no solver.
   sum            Python 3.12 `sum()` of floats vs the model's Neumaier `pySum` (bit exact).
 """
 from __future__ import annotations
 
+import copy
 import math
 import os
 import traceback
@@ -68,9 +79,10 @@ TRUSTED = [
     "correspondence runs); what remains a parameter: the solver, and the start (any ValidAlloc inside the die — "
     "`create_initial_allocation` is property C03's)",
     "theorems are over exact ordered fields; IEEE rounding is executed (F stream), never proved",
-    "FV/Model/GlbOpt.lean models what optimize_allocation posts (declarations, constants, capacity/area/centroid/offset/"
-    "hard-sum equations; NOT the bodies of the dispersion equations, hyperedge equations and the objective) — tied to the real "
-    "GEKKO model by the post-live/post-synth structure streams; `posted_constraints_imply_solverPost` turns the solver "
+    "FV/Model/GlbOpt.lean models everything optimize_allocation posts (declarations incl. the anonymous net-centre variables, "
+    "constants, capacity/area/centroid/offset/hard-sum equations, dispersion equations, net-centre equations, every objective "
+    "term with its alpha weighting; default dispersion function only; Python's float power is a parameter) — tied to the real "
+    "GEKKO model node-for-node by the post-live/post-synth streams; `posted_constraints_imply_solverPost` turns the solver "
     "hypothesis into: the returned point satisfies what was posted, within tolerance (monitored), and non-convergence raises",
     "harness (Python): wrapping of extract_solution / optimize_allocation, comparison, exact clause evaluation",
 ]
@@ -153,23 +165,27 @@ def consts_request(case: dict, mode: str = "F") -> str:
 
 
 def post_request(case: dict, mode: str = "F") -> str:
-    s = f"{mode} post {_rect_tok(case['die_bb'], mode)} {_sc(case['eps_d'], mode)} {_sc(case['thr'], mode)} {len(case['offered'])}"
+    s = f"{mode} post {_rect_tok(case['die_bb'], mode)} {_sc(case['eps_d'], mode)} {_sc(case['thr'], mode)} " \
+        f"{_sc(case['alpha'], mode)} {len(case['offered'])}"
     for rect, alloc, _depth in case["offered"]:
         s += " " + _rect_tok(rect, mode) + f" {len(alloc)}" + "".join(f" {n} {_sc(v, mode)}" for n, v in alloc)
     s += f" {len(case['mods'])}" + "".join(" " + _mod_tok(m, mode) + " " + _sc(case["areas"][m["name"]], mode) for m in case["mods"])
-    s += f" {len(case['edges'])}" + "".join(f" {n}" for n in case["edges"])
+    s += f" {len(case['edges'])}" + "".join(f" {_sc(w, mode)} {len(pins)}" + "".join(" " + p for p in pins)
+                                           for w, pins in case["edges"])
     return s
 
 
-def capture_posted(case: dict, model, die, get_value=None) -> None:
+def capture_posted(case: dict, model, die, alpha, get_value=None) -> None:
     """what was posted to GEKKO for this model, in the reply format of the driver op `post` (+ the monitor)."""
     g = model.gekko
     if not isinstance(g, glb_post.RecGEKKO):
         return
-    canon = glb_post.Canon(g)
+    edges = list(die.netlist.edges)
+    canon = glb_post.Canon(g, [i for i, e in enumerate(edges) if len(e.modules) != 2])
     case["posted"] = canon.posted(model)
     case["areas"] = {m.name: float(m.area()) for m in die.netlist.modules}
-    case["edges"] = [len(e.modules) for e in die.netlist.edges]
+    case["edges"] = [(float(e.weight), [m.name for m in e.modules]) for e in edges]
+    case["alpha"] = float(alpha)
     if "die_bb" not in case:
         case["die_bb"] = rect_d(die.bounding_box)
     if get_value is not None:
@@ -651,6 +667,167 @@ def gen_pulled(rng, idx: int) -> dict:
             "thr": rng.choice([0.9, 0.95]), "alpha": alpha, "max_iter": rng.choice([2, 2, 3])}
 
 
+# instances (found by search, deterministic with the local APOPT binary) on which a FLIPPABLE multi-rectangle hard module
+# comes back MIRRORED from a real glbfloor run: the branch is off the trunk's axis by a small amount, so that the squared
+# offset equation `(x_0 - x_1)^2 == off^2` lets the solver cross to the other sign
+KNOWN_FLIPPERS = [
+    {"die": {"width": 5, "height": 5, "regions": []},
+     "modules": {"H": {"hard": True, "flip": True, "rectangles": [[1.6119264524005579, 2.923704844264215, 1.5, 1], [1.6744264524005579, 3.673704844264215, 0.5, 0.5]]},
+                 "S0": {"area": 2.23, "center": [3.85, 1.71]}, "S1": {"area": 2.95, "center": [1.06, 3.77]}, "S2": {"area": 1.67, "center": [0.99, 1.69]}},
+     "order": ["H", "S0", "S1", "S2"], "nets": [["H", "S0", 1], ["S1", "H", 1]], "refine": {"grid": [3, 2]}, "thr": 0.8, "alpha": 0.9, "max_iter": 2},
+    {"die": {"width": 4, "height": 4, "regions": []},
+     "modules": {"H": {"hard": True, "flip": True, "rectangles": [[1.669220726122023, 2.1478796009105814, 2, 1], [1.679220726122023, 2.8978796009105814, 0.5, 0.5]]},
+                 "S0": {"area": 1.05, "center": [1.6, 3.19]}, "S1": {"area": 1.09, "center": [3.21, 1.64]}},
+     "order": ["H", "S0", "S1"], "nets": [["S0", "S1", 5], ["S1", "S0", 1]], "refine": {"split": [2.0, 3]}, "thr": 0.8, "alpha": 0.5, "max_iter": 1},
+    {"die": {"width": 5, "height": 5, "regions": []},
+     "modules": {"H": {"hard": True, "flip": True, "rectangles": [[1.6195855248047621, 1.7501650915648326, 2, 1.5], [1.7445855248047621, 2.7501650915648326, 1, 0.5]]},
+                 "S0": {"area": 1.56, "center": [2.96, 3.46]}, "S1": {"area": 2.19, "center": [3.41, 1.4]}},
+     "order": ["H", "S0", "S1"], "nets": [["H", "S0", 2], ["S0", "H", 2]], "refine": {"split": [2.0, 3]}, "thr": 0.9, "alpha": 0.5, "max_iter": 3},
+    {"die": {"width": 5, "height": 5, "regions": []},
+     "modules": {"H": {"hard": True, "flip": True, "rectangles": [[1.38, 1.24, 2, 1.5], [2.63, 1.27125, 0.5, 0.5]]},
+                 "S0": {"area": 1.16, "center": [3.67, 4.08]}, "S1": {"area": 1.66, "center": [2.21, 3.72]}},
+     "order": ["H", "S0", "S1"], "nets": [["H", "S0", 1], ["S0", "S1", 2], ["H", "S0", 5]], "refine": {"split": [2.0, 5]}, "thr": 0.95, "alpha": 0.1, "max_iter": 2},
+    {"die": {"width": 4, "height": 3, "regions": []},
+     "modules": {"H": {"hard": True, "flip": True, "rectangles": [[1.27, 0.89, 1, 1], [1.395, 1.8900000000000001, 0.5, 1]]},
+                 "S0": {"area": 0.92, "center": [3.02, 1.63]}},
+     "order": ["H", "S0"], "nets": [["S0", "H", 5]], "refine": {"grid": [2, 2]}, "thr": 0.8, "alpha": 0.9, "max_iter": 1},
+]
+
+
+# two soft modules that fill one cell each of a 1 x 2 grid: after the first optimisation nothing must be refined
+SETTLED_PAIR = {"family": "in-process", "die": {"width": 2, "height": 1, "regions": []},
+                "modules": {"M": {"area": 1.0, "center": [0.5, 0.5]}, "N": {"area": 0.96, "center": [1.5, 0.5]}},
+                "order": ["M", "N"], "nets": [["M", "N"]], "refine": {"grid": [1, 2]}, "thr": 0.9, "alpha": 0.3, "max_iter": None}
+
+
+def gen_rich(rng, idx: int) -> dict:
+    """few but diverse instances: a die with a blockage AND a specialised region, a FIXED module made of 2-3 rectangles
+    (sometimes a second one), a flippable hard module whose branch is slightly off the trunk's axis, soft modules, nets
+    with 2 and with 3-4 pins (some weighted, some through the fixed module), any alpha in (0,1), `max_iter=None` half of
+    the time."""
+    W, H = rng.choice([(6, 4), (6, 5), (8, 4), (5, 5)])
+    used = []
+
+    def free(b):
+        return 0 <= b[0] and 0 <= b[1] and b[2] <= W and b[3] <= H and \
+            all(b[2] <= u[0] or u[2] <= b[0] or b[3] <= u[1] or u[3] <= b[1] for u in used)
+
+    def place(w, h):
+        for _ in range(40):
+            x0, y0 = rng.randint(0, W - w), rng.randint(0, H - h)
+            b = (x0, y0, x0 + w, y0 + h)
+            if free(b):
+                used.append(b)
+                return b
+        return None
+
+    def covered(cx, cy, w, h):
+        x0, y0, x1, y1 = cx - w / 2, cy - h / 2, cx + w / 2, cy + h / 2
+        inside = max(0.0, min(x1, W) - max(x0, 0)) * max(0.0, min(y1, H) - max(y0, 0))
+        taken = sum(max(0.0, min(x1, u[2]) - max(x0, u[0])) * max(0.0, min(y1, u[3]) - max(y0, u[1])) for u in used)
+        return 1 - (inside - taken) / (w * h)
+
+    modules, order, regions = {}, [], []
+    for k in range(rng.choice([1, 1, 2])):
+        b = place(rng.choice([1, 2]), rng.choice([1, 1, 2]))
+        if not b:
+            continue
+        boxes = [b]
+        for _ in range(rng.choice([1, 2, 2])):          # grow by unit boxes abutting any box of the module
+            cands = []
+            for (x0, y0, x1, y1) in boxes:
+                cands += [(x1, y0, x1 + 1, y0 + 1), (x0 - 1, y0, x0, y0 + 1), (x0, y1, x0 + 1, y1 + 1), (x0, y0 - 1, x0 + 1, y0),
+                          (x1, y1 - 1, x1 + 1, y1), (x1 - 1, y1, x1, y1 + 1)]
+            rng.shuffle(cands)
+            for c in cands:
+                if free(c):
+                    used.append(c)
+                    boxes.append(c)
+                    break
+        modules[f"F{k}"] = {"fixed": True,
+                            "rectangles": [[(x0 + x1) / 2, (y0 + y1) / 2, x1 - x0, y1 - y0] for (x0, y0, x1, y1) in boxes]}
+        order.append(f"F{k}")
+    b = place(1, rng.choice([1, 2]))
+    if b:
+        regions.append([(b[0] + b[2]) / 2, (b[1] + b[3]) / 2, b[2] - b[0], b[3] - b[1], "#"])
+    nblock = len(used)
+    b = place(2, rng.choice([1, 2]))
+    special = None
+    if b:
+        special = b
+        regions.append([(b[0] + b[2]) / 2, (b[1] + b[3]) / 2, b[2] - b[0], b[3] - b[1], rng.choice(["DSP", "BRAM"])])
+        used.pop()                                       # a specialised region is free area for the modules
+    free_area = W * H - sum((u[2] - u[0]) * (u[3] - u[1]) for u in used)
+    budget = free_area * rng.choice([0.3, 0.4, 0.5])
+    # a flippable hard module: trunk + a branch slightly off its axis (+ sometimes a second branch)
+    w, h = rng.choice([1, 1.5, 2]), rng.choice([1, 1.5])
+    for _ in range(30):
+        cx, cy = round(rng.uniform(w / 2 + 0.3, W - w / 2 - 0.8), 2), round(rng.uniform(h / 2 + 0.3, H - h / 2 - 1.2), 2)
+        if covered(cx, cy, w + 1, h + 1) < 0.25:
+            # a single-trunk orthogon (flippable modules must be one): every branch within the trunk's extent
+            off = rng.choice([2 ** -4, 2 ** -5, 2 ** -3, 0.01, 0.05]) * rng.choice([1, -1])
+            if rng.random() < 0.6:      # branch on top, slightly off the vertical axis
+                w2, h2 = rng.choice([0.5, w - 0.5] if w > 1 else [0.5]), rng.choice([0.5, 1])
+                rs = [[cx, cy, w, h], [cx + off, cy + h / 2 + h2 / 2, w2, h2]]
+                if rng.random() < 0.3:
+                    rs.append([cx - off, cy - h / 2 - 0.25, 0.5, 0.5])
+            else:                       # branch on the right, slightly off the horizontal axis
+                w2, h2 = rng.choice([0.5, 1]), 0.5
+                rs = [[cx, cy, w, h], [cx + w / 2 + w2 / 2, cy + off, w2, h2]]
+                if rng.random() < 0.3:
+                    rs.append([cx - w / 2 - 0.25, cy - off, 0.5, 0.5])
+            modules["H0"] = {"hard": True, "rectangles": rs, "flip": True}
+            order.append("H0")
+            budget -= sum(r[2] * r[3] for r in rs)
+            break
+    for k in range(rng.randint(1, 3)):
+        if len(order) >= 6:
+            break
+        area = round(min(max(budget, 0.5) * rng.uniform(0.3, 0.6), rng.uniform(1, 5)), 2)
+        if area < 0.3:
+            continue
+        side = math.sqrt(area)
+        for _ in range(30):
+            cx, cy = round(rng.uniform(0.5, W - 0.5), 2), round(rng.uniform(0.5, H - 0.5), 2)
+            if covered(cx, cy, side, side) < 0.4:
+                modules[f"S{k}"] = {"area": area, "center": [cx, cy]}
+                order.append(f"S{k}")
+                budget -= area
+                break
+    nets = []
+    if len(order) >= 3:
+        nets.append(rng.sample(order, rng.choice([3, 3, 4]) if len(order) >= 4 else 3) + ([rng.choice([2, 0.5, 3])] if rng.random() < 0.5 else []))
+    for _ in range(rng.randint(1, 3)):
+        if len(order) >= 2:
+            nets.append(rng.sample(order, 2) + ([rng.choice([2, 0.5, 5])] if rng.random() < 0.5 else []))
+    fx = [n for n in order if n.startswith("F")]
+    if len(fx) == 2 and rng.random() < 0.5:
+        nets.append(fx)                                  # a net between two fixed modules: a constant objective term
+    return {"idx": idx, "family": "rich", "die": {"width": W, "height": H, "regions": regions}, "modules": modules,
+            "order": order, "nets": nets, "refine": {"split": [rng.choice([1.5, 2.0, 3.0]), rng.randint(3, 8)]},
+            "thr": rng.choice([0.7, 0.8, 0.9, 0.9, 0.95]), "alpha": round(rng.uniform(0.03, 0.97), 3),
+            "max_iter": rng.choice([None, None, 1, 1, 2, 3])}
+
+
+def gen_blocked(rng, idx: int) -> dict:
+    """a module (hard or soft) placed ENTIRELY on a blockage: it gets no cell in the initial allocation and `glbfloor`
+    raises `KeyError` in `calculate_dispersions` before optimising — it does not return, so the property (\"whenever
+    global floorplanning returns\") says nothing; counted (`blocked:raised:KeyError-no-free-cell`).  Returning is checked as usual."""
+    W, H = rng.choice([(4, 4), (6, 4)])
+    bx, by = rng.randint(0, W - 2), rng.randint(0, H - 2)
+    regions = [[bx + 1, by + 1, 2, 2, "#"]]
+    modules = {}
+    if rng.random() < 0.6:
+        modules["B"] = {"hard": True, "rectangles": [[bx + 1, by + 1, rng.choice([1, 1.5]), 1]]}
+    else:
+        modules["B"] = {"area": rng.choice([0.5, 1.0]), "center": [bx + 1, by + 1]}
+    modules["S"] = {"area": 2.0, "center": [(bx + 3.5) % W, (by + 3) % H]}
+    return {"idx": idx, "family": "blocked", "die": {"width": W, "height": H, "regions": regions}, "modules": modules,
+            "order": ["B", "S"], "nets": [["B", "S"]], "refine": {"split": [2.0, rng.randint(3, 6)]},
+            "thr": rng.choice([0.8, 0.9]), "alpha": rng.choice([0.3, 0.5]), "max_iter": rng.choice([1, 2, None])}
+
+
+
 def _yaml(obj) -> str:
     import json
     return json.dumps(obj)   # JSON is YAML
@@ -760,7 +937,7 @@ def consts_synth_case(inst: dict, rng):
             else:
                 objs[m.name] = m
         case["table"] = build_table(opt, model, allocation, movable, objs, n)
-        capture_posted(case, model, die)
+        capture_posted(case, model, die, inst["alpha"])
         return case
     finally:
         opt.solve_and_extract_solution = o_sol
@@ -781,8 +958,11 @@ def consts_expected(case: dict) -> str:
 
 
 def consts_synth_stream(ctx: Ctx, n: int, reqs, todo) -> None:
+    rich_rng = __import__("random").Random(ctx.rng.getrandbits(48))
     for i in range(n):
-        inst = gen_instance(ctx.rng, 100000 + i)
+        # every fourth instance from the "rich" family: multi-rectangle fixed modules, specialised regions, nets with 3-4
+        # pins, nets through / between fixed modules (constant pins, constant objective terms), any alpha
+        inst = gen_rich(rich_rng, 100000 + i) if i % 4 == 3 else gen_instance(ctx.rng, 100000 + i)
         sub = __import__("random").Random(ctx.rng.getrandbits(48))
         seed = sub.getrandbits(48)
         one_consts(ctx, inst, seed, reqs, todo)
@@ -906,7 +1086,7 @@ def run_instance(inst: dict) -> dict:
                 objs[nm] = m
             case["mods"].append(d)
         case["table"] = build_table(opt, model, allocation, movable, objs, n)
-        capture_posted(case, model, die, gv)
+        capture_posted(case, model, die, inst["alpha"], gv)
         try:
             res = o_ext(model, die, cells, threshold)
         except AssertionError:
@@ -947,6 +1127,11 @@ def run_instance(inst: dict) -> dict:
                 out["status"] = "gekko-raised"          # "Solution Not Found": did not return
             elif isinstance(e, AssertionError):
                 out["status"] = "raised:AssertionError"  # e.g. the Allocation constructor refusing a ratio 1+1e-9
+            elif isinstance(e, KeyError) and len(tb) >= 2 and tb[-1].name == "allocation_module" and \
+                    tb[-2].name == "calculate_dispersions" and _without_free_cell(die, e.args[0] if e.args else None):
+                # a module lying entirely on blockages / fixed modules / outside the die has no cell in the initial
+                # allocation; glbfloor raises before optimising: it does not return (outside "whenever it returns")
+                out["status"] = "raised:KeyError-no-free-cell"
             else:
                 out["status"] = "operation-raised:" + type(e).__name__
                 out["trace"] = [f"{os.path.basename(f.filename)}:{f.lineno}" for f in tb[-4:]]
@@ -962,6 +1147,19 @@ def run_instance(inst: dict) -> dict:
         opt.GEKKO = o_gekko
         Allocation.must_be_refined, Allocation.refine = o_must, o_ref
         Rectangle.undefine_epsilon()
+
+
+def _without_free_cell(die, name) -> bool:
+    """does the named module overlap no refinable rectangle of the die at all?"""
+    try:
+        m = die.netlist.get_module(name)
+        rects = list(m.rectangles)
+        if not rects:
+            return False
+        refinable, _fixed = die.floorplanning_rectangles()
+        return sum(c.area_overlap(r) for c in refinable for r in rects) <= 1e-9 * sum(r.area for r in rects)
+    except Exception:   # noqa: BLE001
+        return False
 
 
 def loop_check(ctx: Ctx, inst: dict, out: dict, reqs: list, todo: list) -> None:
@@ -1093,6 +1291,7 @@ def spec_run(ctx: Ctx, inst: dict, out: dict) -> None:
                     lm["mirrored"] += int(mx or my)
         if b["fixed"] and len(b["rects"]) > 1:
             ctx.count("live-fixed-multi-rectangle")
+            ctx.count(f"live-fixed-rectangles:{len(b['rects'])}")
 
 
 def solver_post(case: dict) -> list[str]:
@@ -1173,17 +1372,49 @@ def check_calls(ctx: Ctx, inst: dict, out: dict, reqs: list, todo: list) -> None
                     ctx.count("offered-fixed-not-0/1")
 
 
+def posted_close(ctx: Ctx, impl: str, model: str) -> tuple[bool, bool]:
+    """the posted model against the generator's: declarations and constants token by token; rows one by one, in order —
+    the same tree (numbers within 1e-9), or, failing that, the same function of the variables (`rows_same_meaning`: an
+    algebraically equivalent way of writing a row is not a difference; counted in coverage.posted_rows_equivalent_form)."""
+    pi, pm = impl.split(" || "), model.split(" || ")
+    if len(pi) != 3 or len(pm) != 3:
+        return False, False
+    exact = True
+    for a, b in zip(pi[:2], pm[:2]):
+        ok, ex = lines_close(a, b, "F", 1e-9)
+        if not ok:
+            return False, False
+        exact = exact and ex
+    ri, rm = pi[2].split(" | "), pm[2].split(" | ")
+    if len(ri) != len(rm) or ri[0] != rm[0]:
+        return False, False
+    sub = None
+    for a, b in zip(ri[1:], rm[1:]):
+        ok, ex = lines_close(a, b, "F", 1e-9)
+        if not ok:
+            if sub is None:
+                sub = __import__("random").Random(len(impl))
+            if not glb_post.rows_same_meaning(a, b, sub):
+                return False, False
+            ctx.extra["posted_rows_equivalent_form"] = ctx.extra.get("posted_rows_equivalent_form", 0) + 1
+        exact = exact and ok and ex
+    return True, exact
+
+
 def compare(ctx: Ctx, todo, replies) -> None:
     for (stream, inp, impl, mode, size), model in zip(todo, replies):
         if stream.startswith("post-"):
             impl, model = glb_post.norm_posted(impl), glb_post.norm_posted(model)
         if impl == model:
             continue
-        ok, exact = lines_close(impl, model, mode, 0.0 if mode == "Q" else 1e-9)
+        if stream.startswith("post-"):
+            ok, exact = posted_close(ctx, impl, model)
+        else:
+            ok, exact = lines_close(impl, model, mode, 0.0 if mode == "Q" else 1e-9)
         if ok:
             ctx.drift += 0 if exact else 1
             continue
-        ctx.disagree(stream, inp, impl[:2000], model[:2000], size)
+        ctx.disagree(stream, inp, impl[:4000], model[:4000], size)
 
 
 def synth_stream(ctx: Ctx, n: int, reqs, todo, seeds=()) -> None:
@@ -1234,7 +1465,10 @@ def run(ctx: Ctx) -> None:
     ctx.rule = ("glb: generated dies 4..8 x 4..6 (50% with 1-2 blockages, 0-2 fixed modules on integer boxes), <= 5 modules "
                 "(0-2 movable hard with 1-3 rectangles, half flippable; 1-3 soft; every module initially at least 60% on free area), 1-4 nets, initial grid / split into 2-8 "
                 "regions, threshold in {0.5..0.99}, alpha in {0.1,0.3,0.5,0.9}, max_iter in {1,2,3}; a run is non-trivial iff "
-                "glbfloor returned.  settled: rows x cols grid (initial_grid or split of a power-of-two die), one soft/hard module "
+                "glbfloor returned.  flipper: 5 fixed instances (mirrored result).  rich: 16 sub-seeded instances, die 5..8 x 4..5 with a "
+                "blockage and a DSP/BRAM region, 1-2 fixed modules of 2-3 abutting boxes, a flippable 2-3 rectangle single-trunk hard "
+                "module with a branch 0.01-0.125 off the trunk's axis, 1-3 soft modules, a 3-4 pin net + 1-3 two-pin nets (weights), alpha "
+                "uniform in (0.03,0.97), max_iter in {None,None,1,1,2,3}.  blocked: a module entirely on a 2x2 blockage.  settled: rows x cols grid (initial_grid or split of a power-of-two die), one soft/hard module "
                 "centred per cell, square side 0.9-1.25 cell sides (1-2 leakers > 1), thr in {0.85,0.9,0.95}, max_iter in {1,2,3,None}, "
                 "total module area < die area.  extract-synth: synthetic answers (ratios 0 / 1 / exactly 1-thr / out of range / random; "
                 "sub-rectangle coordinates same / mirrored / random) on the real extract_solution; distinct = distinct "
@@ -1244,10 +1478,15 @@ def run(ctx: Ctx) -> None:
         "the solver's answer is an input: `SolverPost` (FV/Props/C10.lean) is assumed by extract_ratios / fixed_kept and "
         "monitored on every captured answer (see coverage.solver_post)",
         "runs in which GEKKO raises or an assertion fires did not return and are outside the property (counted)",
+        "a module (hard or soft) lying entirely on blockages has no cell in the initial allocation: glbfloor raises KeyError in "
+        "calculate_dispersions before the first optimisation — a raise is not a return, the property quantifies over runs that "
+        "return: outside the quantifier (family `blocked`, status raised:KeyError-no-free-cell; any other KeyError is a failure)",
         "loop theorems: `glbLoop_invariant`/`glbfloor_feasible` keep refine / must_be_refined abstract; `glbfloorA_*` instantiate "
         "them with the allocation model of C02/C12 (no hypothesis about refine left); the start allocation is any ValidAlloc "
         "inside the die (create_initial_allocation: C03)",
     ]
+    glb_post.self_test()      # the "same meaning" device of the posted-rows comparison must not swallow a real difference
+    ctx.extra["posted_rows_meaning_selftest"] = "ok (4 equivalent pairs accepted, 7 different pairs rejected)"
     reqs, todo = [], []
     seeds = getattr(ctx, "seed_inputs", [])
     for s in seeds:
@@ -1261,8 +1500,20 @@ def run(ctx: Ctx) -> None:
     insts += [gen_settled(ctx.rng, n_runs + i) for i in range(ctx.n(16, 120))]
     insts += [gen_infeasible(ctx.rng, len(insts) + i) for i in range(ctx.n(8, 40))]
     insts += [gen_pulled(ctx.rng, len(insts) + i) for i in range(ctx.n(4, 24))]
+    # sub-seeded families (their own generator state: adding / removing one does not shift the other streams)
+    sub = __import__("random").Random(ctx.rng.getrandbits(48))
+    insts += [dict(copy.deepcopy(k), idx=len(insts) + i, family="flipper") for i, k in enumerate(KNOWN_FLIPPERS)]
+    insts += [gen_rich(sub, len(insts) + i) for i in range(ctx.n(16, 120))]
+    insts += [gen_blocked(sub, len(insts) + i) for i in range(ctx.n(2, 8))]
     n_runs = len(insts)
     outs = run_instances(insts)
+    # two more runs IN THIS PROCESS (the pool's children are invisible to the anchored-line coverage): one that refines
+    # (max_iter 2) and one `max_iter=None` run that stops because nothing must be refined; checked like every other run
+    for inproc in (dict(copy.deepcopy(KNOWN_FLIPPERS[0]), family="in-process"), copy.deepcopy(SETTLED_PAIR)):
+        inproc["idx"] = len(insts)
+        insts.append(inproc)
+        outs.append(run_instance(inproc))
+    n_runs = len(insts)
     status: dict[str, int] = {}
     for inst, out in zip(insts, outs):
         status[out["status"]] = status.get(out["status"], 0) + 1
@@ -1282,6 +1533,13 @@ def run(ctx: Ctx) -> None:
             ctx.count("mix:" + kinds)
             ctx.count(f"iterations:{len(out['calls'])}")
             ctx.count(f"thr:{inst['thr']}")
+            ctx.count(f"returned:max_iter={inst['max_iter']}")
+            if any(r[4] not in ("#",) for r in inst["die"]["regions"]):
+                ctx.count("returned:die-with-specialised-region")
+            if any(r[4] == "#" for r in inst["die"]["regions"]):
+                ctx.count("returned:die-with-blockage")
+            if any(len([p for p in n if isinstance(p, str)]) > 2 for n in inst["nets"]):
+                ctx.count("returned:netlist-with-hyperedge")
             spec_run(ctx, inst, out)
         check_calls(ctx, inst, out, reqs, todo)
     ctx.extra["glb_runs"] = {"total": n_runs, "by_status": status}
